@@ -221,7 +221,7 @@ def run(ctx):
         do(ctx, 'C12.duality_corr', ['torch', m, rng.randint(0, len(m) // 2)], nontrivial=('b12', it))
         N = rng.randint(1, 4)
         prog = rprog(rng, ctx.model, N, rng.randint(1, 5))
-        do(ctx, 'C09.torch_prog', [N, prog, gen.rplist(rng, N, 3), rng.choice([0, 1, 2]), rng.choice(['orig', 'copy', 'halves', 'stale_halves', 'copy_extend']), rng.choice(['forward', 'backward'])], nontrivial=('b09', it))
+        do(ctx, 'C09.torch_prog', [N, prog, gen.rplist(rng, N, 3), rng.choice([0, 1, 2]), rng.choice(['orig', 'copy', 'halves', 'stale_halves', 'copy_extend', 'recompile', 'recompile']), rng.choice(['forward', 'backward'])], nontrivial=('b09', it))
         prog = [[0, gen.rgate(rng, ctx.model, N, kinds=('gen', 'fwd', 'fwd', 'bwd', 'both', 'named'))] for _ in range(rng.randint(1, 4))]
         do(ctx, 'C10.torch_history', [N, prog, gen.rplist(rng, N, 3), rng.choice([0, 0, 1, 2]), rng.choice(['B', 'BF', 'BBF', 'FBBF', 'BFFB']), rng.choice(['never', 'first', 'compiled', 'used'])], nontrivial=('b10', it))
         for kind in ['Pauli', 'PauliList', 'CliffordMap', 'StabilizerState', 'PauliPolynomial']:
